@@ -91,6 +91,20 @@ fn apply_captures(registers: &mut Vec<KValue>, f: &KFunction)
     ensures final(registers)@.len() >= old(registers)@.len(), final(registers)@.len() <= old(registers)@.len() + 0x1_0000_0000,
 { unimplemented!() }
 
+// builders -> values (rule R5): `KList::with_data(ValueVec::from_vec(result))`, `KTuple::from(result)`,
+// `result.into()` for a String; the value holds exactly the builder's contents
+uninterp spec fn list_of(elems: Seq<KValue>) -> KValue;
+uninterp spec fn tuple_of(elems: Seq<KValue>) -> KValue;
+uninterp spec fn string_of(s: String) -> KValue;
+#[verifier::external_body]
+fn list_value_from(result: Vec<KValue>) -> (r: KValue) ensures r == list_of(result@) { unimplemented!() }
+#[verifier::external_body]
+fn tuple_value_from(result: Vec<KValue>) -> (r: KValue) ensures r == tuple_of(result@) { unimplemented!() }
+#[verifier::external_body]
+fn string_value_from(result: String) -> (r: KValue) ensures r == string_of(result) { unimplemented!() }
+#[verifier::external_body]
+fn error_missing_builder<T>() -> (r: Result<T>) ensures r is Err { unimplemented!() }
+
 // `unexpected_type(..)` builds an error value (error.rs); assumed total
 #[verifier::external_body]
 fn unexpected_type<T>(expected_str: &str, unexpected: &KValue) -> (r: Result<T>)
@@ -180,7 +194,11 @@ VM_SPECS = r"""
                 final(self).cur_chunk() == old(self).cur_chunk(),
                 final(self).same_but_registers(old(self)),
                 final(self).wf() == old(self).wf(),
+                final(self).last_written() == (register, value),
     { unimplemented!() }
+
+    // ghost: the last (register, value) handed to set_register
+    uninterp spec fn last_written(&self) -> (u8, KValue);
 
     spec fn same_but_reader(&self, o: &KotoVm) -> bool {
         &&& self.registers@ == o.registers@
@@ -331,8 +349,9 @@ VM_SPECS = r"""
 
     // assumed: reads a register of the current frame (panics when out of range: bytecode
     // well-formedness, C05 composition)
+    uninterp spec fn reg_value(&self, register: u8) -> KValue;
     #[verifier::external_body]
-    fn clone_register(&self, register: u8) -> KValue { unimplemented!() }
+    fn clone_register(&self, register: u8) -> (r: KValue) ensures r == self.reg_value(register) { unimplemented!() }
 
 
     // ---- assumed contract of the operator handlers (run_add ... run_access_assign, ~1500 lines,
@@ -982,6 +1001,56 @@ UNIT = Unit(
         final(self).sequence_builders@ == old(self).sequence_builders@,
         final(self).string_builders@ == old(self).string_builders@,
         final(self).execution_state == old(self).execution_state,
+"""),
+        # ------------------------------------------------------------------ sequence / string builders (C05 balance, C07)
+        Fn(F, "impl KotoVm :: fn run_sequence_push", props=("C05", "C07", "C06"),
+           subst=[("runtime_error!(ErrorKind::MissingSequenceBuilder)", "error_missing_builder()", 1)],
+           spec=r"""
+    ensures
+        // an element goes to the INNERMOST sequence under construction; a missing builder is an
+        // error (C05 internal fault), never a panic
+        r is Ok <==> old(self).sequence_builders@.len() > 0,                                             // @missing_builder_is_error
+        r is Ok ==> final(self).sequence_builders@.len() == old(self).sequence_builders@.len()
+            && final(self).sequence_builders@.drop_last() == old(self).sequence_builders@.drop_last()
+            && final(self).sequence_builders@.last()@ == old(self).sequence_builders@.last()@.push(old(self).reg_value(value_register)),   // @appended_to_innermost_builder
+        r is Err ==> final(self).sequence_builders@ == old(self).sequence_builders@,
+        final(self).string_builders@ == old(self).string_builders@, final(self).call_stack@ == old(self).call_stack@,
+        final(self).registers@ == old(self).registers@,
+"""),
+        Fn(F, "impl KotoVm :: fn run_sequence_to_list", props=("C05", "C07", "C06"),
+           subst=[("runtime_error!(ErrorKind::MissingSequenceBuilder)", "error_missing_builder()", 1),
+                  ("let list = KList::with_data(ValueVec::from_vec(result));", "let list = list_value_from(result);", 1),
+                  ("list.into()", "list", 1)],
+           spec=r"""
+    ensures
+        // finishing a sequence consumes EXACTLY the innermost builder and stores its contents
+        r is Ok <==> old(self).sequence_builders@.len() > 0,                                             // @missing_builder_is_error
+        r is Ok ==> final(self).sequence_builders@ == old(self).sequence_builders@.drop_last(),          // @pops_exactly_the_innermost_builder
+        r is Ok ==> final(self).last_written() == (register, list_of(old(self).sequence_builders@.last()@)),   // @list_holds_the_builder_contents
+        r is Err ==> final(self).sequence_builders@ == old(self).sequence_builders@,
+        final(self).string_builders@ == old(self).string_builders@, final(self).call_stack@ == old(self).call_stack@,
+"""),
+        Fn(F, "impl KotoVm :: fn run_sequence_to_tuple", props=("C05", "C07", "C06"),
+           subst=[("runtime_error!(ErrorKind::MissingSequenceBuilder)", "error_missing_builder()", 1),
+                  ("KTuple::from(result).into()", "tuple_value_from(result)", 1)],
+           spec=r"""
+    ensures
+        r is Ok <==> old(self).sequence_builders@.len() > 0,                                             // @missing_builder_is_error
+        r is Ok ==> final(self).sequence_builders@ == old(self).sequence_builders@.drop_last(),          // @pops_exactly_the_innermost_builder
+        r is Ok ==> final(self).last_written() == (register, tuple_of(old(self).sequence_builders@.last()@)),   // @tuple_holds_the_builder_contents
+        r is Err ==> final(self).sequence_builders@ == old(self).sequence_builders@,
+        final(self).string_builders@ == old(self).string_builders@, final(self).call_stack@ == old(self).call_stack@,
+"""),
+        Fn(F, "impl KotoVm :: fn run_string_finish", props=("C05", "C07", "C06"),
+           subst=[("runtime_error!(ErrorKind::MissingStringBuilder)", "error_missing_builder()", 1),
+                  ("result.into()", "string_value_from(result)", 1)],
+           spec=r"""
+    ensures
+        r is Ok <==> old(self).string_builders@.len() > 0,                                               // @missing_builder_is_error
+        r is Ok ==> final(self).string_builders@ == old(self).string_builders@.drop_last(),              // @pops_exactly_the_innermost_builder
+        r is Ok ==> final(self).last_written() == (register, string_of(old(self).string_builders@.last())),   // @string_is_the_builder_contents
+        r is Err ==> final(self).string_builders@ == old(self).string_builders@,
+        final(self).sequence_builders@ == old(self).sequence_builders@, final(self).call_stack@ == old(self).call_stack@,
 """),
         Type(F, "enum CallArgs"),
         Fn(F, "impl KotoVm :: fn call_and_run_function", props=("C07", "C04"),
